@@ -32,7 +32,9 @@ EXPLANATION = (
     "The four chunk codecs of Base64Engine (and libpass' two encoders) are executed symbolically from their real "
     "source for every shape chunks in {0,1,2} x tail in {0,1,2} (resp. {0,2,3}) over fully symbolic bytes/sextets and "
     "compared with the 24-bit-group definition; fixed-width integer codecs (6/12/24/30/64 bits, both endiannesses) are "
-    "verified for all integers incl. range and length refusals; group and integer round-trip lemmas close the inverse."
+    "verified for all integers incl. range and length refusals; group and integer round-trip lemmas close the inverse. "
+    "encode/decode_transposed_bytes are proved to move byte k to / from offsets[k] for every shipped table (all permutations: finite); "
+    "check_repair_unused is executed from its real text on every final character x length class x str/bytes for the three engines."
 )
 ASSUMPTIONS = [
     "stream-map meta-rule: an iteration of the chunk loops depends only on the values it reads (checked: 2-chunk shapes "
